@@ -1153,7 +1153,15 @@ def _equal(a, b):
     return all(_entry_is_zero(A_[i] - B_[i]) for i in np.ndindex(*A_.shape))
 
 
-@H("nonzero", "argmax", "argmin", "max", "min", "sort", "argsort", "unique", "round", "int", "long",
+@H("round")
+def _round(self, *a, decimals=0, **k):
+    """rounding to the nearest integer (ties to even, as torch and Python do): an atom valued numerically from its argument"""
+    if a or decimals or k:
+        raise ValueDependent("round with decimals")
+    return _new(map1(lambda e: alg.cast(e, "rnd"), self._arr))
+
+
+@H("nonzero", "argmax", "argmin", "max", "min", "sort", "argsort", "unique", "int", "long",
    "bool", "floor", "ceil", "sign", "isnan", "isinf", "isfinite", "allclose")
 def _valdep(*a, **k):
     raise ValueDependent("value-dependent primitive on a symbolic tensor")
